@@ -125,12 +125,49 @@ pub struct CbCfg {
     /// custom classifier: errors of kind 1 are not failures
     pub custom_classifier: bool,
     pub fallback: bool,
+    /// the fallback's future stays pending until the explorer opens its gate
+    pub fallback_gated: bool,
+}
+
+/// Gate and invocation log of the (optionally gated) fallback function.
+#[derive(Default)]
+pub struct FbGate {
+    pub open: Mutex<bool>,
+    wakers: Mutex<Vec<std::task::Waker>>,
+    /// request ids the fallback function was invoked with
+    pub invoked: Mutex<Vec<u32>>,
+}
+
+impl FbGate {
+    pub fn release(&self) {
+        *self.open.lock().unwrap() = true;
+        for w in self.wakers.lock().unwrap().drain(..) {
+            w.wake();
+        }
+    }
+}
+
+struct FbFut {
+    gate: Arc<FbGate>,
+    gated: bool,
+    resp: Option<Resp>,
+}
+
+impl std::future::Future for FbFut {
+    type Output = Result<Resp, InnerErr>;
+    fn poll(mut self: std::pin::Pin<&mut Self>, cx: &mut std::task::Context<'_>) -> std::task::Poll<Self::Output> {
+        if self.gated && !*self.gate.open.lock().unwrap() {
+            self.gate.wakers.lock().unwrap().push(cx.waker().clone());
+            return std::task::Poll::Pending;
+        }
+        std::task::Poll::Ready(Ok(self.resp.take().expect("fallback future polled after completion")))
+    }
 }
 
 impl CbCfg {
     pub fn label(&self) -> String {
         format!(
-            "{} size={} win={}ms thr={} min={:?} wait={}ms permitted={} slow={:?}@{} classifier={} fallback={}",
+            "{} size={} win={}ms thr={} min={:?} wait={}ms permitted={} slow={:?}@{} classifier={} fallback={}{}",
             if self.time_based { "time_based" } else { "count_based" },
             self.window_size,
             self.window_ms,
@@ -141,7 +178,8 @@ impl CbCfg {
             self.slow_ms,
             self.slow_rate,
             if self.custom_classifier { "custom" } else { "default" },
-            self.fallback
+            self.fallback,
+            if self.fallback_gated { "(pending until released)" } else { "" }
         )
     }
     pub fn site(&self) -> &'static str {
@@ -166,6 +204,11 @@ pub fn build(cfg: &CbCfg, inner: Shared, origin: tokio::time::Instant) -> (Box<d
 /// `nest`: listeners that run inside the breaker's critical sections call its hook, so that an
 /// armed caller is polled from there (emulated lock contention, see trv_core::nest).
 pub fn build_nested(cfg: &CbCfg, inner: Shared, origin: tokio::time::Instant, nest: Option<Arc<trv_core::nest::Nest>>) -> (Box<dyn Cb>, TransitionLog) {
+    let (h, tl, _) = build_full(cfg, inner, origin, nest);
+    (h, tl)
+}
+
+pub fn build_full(cfg: &CbCfg, inner: Shared, origin: tokio::time::Instant, nest: Option<Arc<trv_core::nest::Nest>>) -> (Box<dyn Cb>, TransitionLog, Arc<FbGate>) {
     let log: TransitionLog = Arc::new(Mutex::new(vec![]));
     let l2 = log.clone();
     let inner_for_step = inner.clone();
@@ -193,14 +236,18 @@ pub fn build_nested(cfg: &CbCfg, inner: Shared, origin: tokio::time::Instant, ne
         b = b.slow_call_duration_threshold(Duration::from_millis(s)).slow_call_rate_threshold(cfg.slow_rate);
     }
     let gi = GatedInner::new(inner);
-    let fb = |req: Req| -> BoxFuture<'static, Result<Resp, InnerErr>> {
-        Box::pin(async move { Ok(Resp { serial: FALLBACK_SERIAL, req: req.id, key: req.key }) })
+    let gate: Arc<FbGate> = Arc::new(FbGate::default());
+    let g2 = gate.clone();
+    let gated = cfg.fallback_gated;
+    let fb = move |req: Req| -> BoxFuture<'static, Result<Resp, InnerErr>> {
+        g2.invoked.lock().unwrap().push(req.id);
+        Box::pin(FbFut { gate: g2.clone(), gated, resp: Some(Resp { serial: FALLBACK_SERIAL, req: req.id, key: req.key }) })
     };
     let h: Box<dyn Cb> = if cfg.custom_classifier {
         let layer = b.failure_classifier(|r: &Result<Resp, InnerErr>| matches!(r, Err(e) if e.kind != 1)).build();
         let svc = layer.layer_fn(gi);
         if cfg.fallback {
-            Box::new(svc.with_fallback(fb))
+            Box::new(svc.with_fallback(fb.clone()))
         } else {
             Box::new(svc)
         }
@@ -213,5 +260,5 @@ pub fn build_nested(cfg: &CbCfg, inner: Shared, origin: tokio::time::Instant, ne
             Box::new(svc)
         }
     };
-    (h, log)
+    (h, log, gate)
 }
